@@ -5,11 +5,16 @@ Applied only to scratch copies (tools/canary.py); never to /repo itself."""
 CANARIES = []
 
 
-def canary(id, prop, file, old, new, expect='', more=None):
+def canary(id, prop, file, old, new, expect='', more=None, benign=False):
     edits = [{'file': file, 'old': old, 'new': new}]
     for m in more or []:
         edits.append({'file': m[0], 'old': m[1], 'new': m[2]})
-    CANARIES.append({'id': id, 'property': prop, 'edits': edits, 'expect': expect})
+    CANARIES.append({'id': id, 'property': prop, 'edits': edits, 'expect': expect, 'benign': benign})
+
+
+def benign(id, prop, file, old, new, more=None):
+    """a behaviour-preserving refactoring: the property's check must stay silent on it"""
+    canary(id, prop, file, old, new, '', more, benign=True)
 
 
 CTL = 'crates/edp_client/src/control.rs'
@@ -823,3 +828,32 @@ canary('c14-too-many-atoms-256', 'C14', ENCF, "    if atom_set.len() > 255 {", "
 canary('c14-scratch-cache-dropped', 'C14', DEC, "    let (remaining, term) = parse_versioned_term_with_cache(data, cache).map_err(from_nom_error)?;",
        "    let mut scratch = cache.clone();\n    let (remaining, term) = parse_versioned_term_with_cache(data, &mut scratch).map_err(from_nom_error)?;", 'cache-copy-not-written-back')
 canary('c15-option-nil-is-none', 'C15', 'crates/erltf_serde/src/de.rs', "            _ => visitor.visit_some(self),\n", "            OwnedTerm::Nil => visitor.visit_none(),\n            _ => visitor.visit_some(self),\n", 'none-for:Nil')
+
+# ---- behaviour-preserving refactorings (must stay silent) ----
+_KEY_HELPER = [(NODE, """    async fn route_message(""", """    fn rpc_key(pid: &ExternalPid) -> String {
+        format!("{}.{}.{}", pid.id, pid.serial, pid.creation)
+    }
+
+    async fn route_message("""),
+               (NODE, """        let pid_str = format!(
+            "{}.{}.{}",
+            reply_to_pid.id, reply_to_pid.serial, reply_to_pid.creation
+        );""", """        let pid_str = Self::rpc_key(&reply_to_pid);""")]
+benign('benign-c17-key-helper', 'C17', NODE, """                        let pid_str = format!("{}.{}.{}", pid.id, pid.serial, pid.creation);""", """                        let pid_str = Self::rpc_key(&pid);""", more=_KEY_HELPER)
+benign('benign-c19-key-helper', 'C19', NODE, """                        let pid_str = format!("{}.{}.{}", pid.id, pid.serial, pid.creation);""", """                        let pid_str = Self::rpc_key(&pid);""", more=_KEY_HELPER)
+canary('c17-key-without-creation', 'C17', NODE, """                        let pid_str = format!("{}.{}.{}", pid.id, pid.serial, pid.creation);""", """                        let pid_str = format!("{}.{}", pid.id, pid.serial);""", 'rpc-key-fields',
+       more=[(NODE, """        let pid_str = format!(
+            "{}.{}.{}",
+            reply_to_pid.id, reply_to_pid.serial, reply_to_pid.creation
+        );""", """        let pid_str = format!("{}.{}", reply_to_pid.id, reply_to_pid.serial);""")])
+canary('c19-deadline-before-loop', 'C19', 'crates/edp_client/src/connection.rs', """        loop {
+            let len = {
+                trace!("Attempting to read message length (4 bytes, distribution protocol)...");
+                let mut len_bytes = [0u8; 4];
+                tokio::time::timeout(timeout, read_half.read_exact(&mut len_bytes))""", """        let deadline = tokio::time::Instant::now() + timeout;
+        loop {
+            let len = {
+                trace!("Attempting to read message length (4 bytes, distribution protocol)...");
+                let mut len_bytes = [0u8; 4];
+                tokio::time::timeout_at(deadline, read_half.read_exact(&mut len_bytes))""", 'deadline-outside-loop')
+canary('c19-route-key-no-creation', 'C19', NODE, """                        let pid_str = format!("{}.{}.{}", pid.id, pid.serial, pid.creation);""", """                        let pid_str = format!("{}.{}.{}", pid.id, pid.serial, 0);""", 'route-rpc-key')
